@@ -4,7 +4,7 @@
 OUT=${1:-/tmp/verif_regress}
 rm -rf "$OUT"; mkdir -p "$OUT"
 cd "$(dirname "$0")/.."
-IDS="C01 C02 C03 C04 C05 C06 C07 C08 C09 C10 C11 C12 C13 C14 C15 C16 C17 C19 C20"
+IDS="C01 C02 C03 C04 C05 C06 C07 C08 C09 C10 C11 C12 C13 C14 C15 C16 C17 C18 C19 C20"
 for id in $IDS; do echo $id; done | xargs -P 6 -I{} sh -c "VERIF_EVIDENCE_DIR=$OUT/ev python3 sa/check.py {} --tier quick > $OUT/{}.clean 2>&1; echo rc=\$? >> $OUT/{}.clean"
 for id in $IDS; do echo $id; done | xargs -P 8 -I{} sh -c "[ -f mutants/{}.json ] && python3 tools/mutants.py {} > $OUT/{}.mut 2>&1; [ -f benign/{}.json ] && VERIF_CORPUS=benign python3 tools/mutants.py {} > $OUT/{}.ben 2>&1; python3 tools/seeds.py {} -j 2 > $OUT/{}.seed 2>&1; true"
 echo "== clean tree"; grep -L "rc=0" $OUT/*.clean
